@@ -57,6 +57,19 @@ def run_case(case):
     since_failure = None
     involved = []
     streak = 0
+    directed_fail = None
+    if case["idx"] % 7 == 2 and spec0 is None:
+        # a storage that lives on its initial need (one of its jobs deletes data): the failing edit lowers that need alone, so that
+        # the hourly deltas it is compared with are NOT among the recomputed values
+        js = [n for n, o in h.spec["objects"].items() if o["cls"] == "Job" and n in h.objs and h.spec["objects"][n]["params"]["server"][1] in h.spec["objects"]]
+        if js:
+            j = rnd.choice(js)
+            st = h.spec["objects"][h.spec["objects"][j]["params"]["server"][1]]["params"]["storage"][1]
+            ok = h.apply({"op": "set", "obj": st, "attr": "base_storage_need", "value": ["q", rnd.choice([50.37, 500.37]), "TB"], "kind": "num"}) is None \
+                and h.apply({"op": "set", "obj": j, "attr": "data_stored", "value": ["q", -rnd.choice([137, 2371]), "kB"], "kind": "num"}) is None
+            if ok:
+                directed_fail = {"op": "set", "obj": st, "attr": "base_storage_need", "value": ["q", 0, "TB"], "kind": "risky_base_storage_short"}
+                classes.add("directed_initial_need_lowered_under_a_deleting_job")
     for k in range(case["n_steps"]):
         if V:
             break
@@ -90,7 +103,9 @@ def run_case(case):
                 pass
             continue
         want_fail = rnd.random() < 0.45 or (streak and streak < 3 and rnd.random() < 0.5)
-        if want_fail:
+        if directed_fail is not None and k >= 1:
+            want_fail, e, directed_fail = True, directed_fail, None
+        elif want_fail:
             e = edits.risky_edit(rnd, h.spec, h.objs)
             if e is not None and e["op"] == "set" and rnd.random() < 0.2:
                 extra = edits.num_edit(rnd, h.spec)
